@@ -7,6 +7,7 @@
 #include "ref/ref.h"
 #include "cq_decl.h"
 #include <stdio.h>
+#include <sys/mman.h>
 #include <stdlib.h>
 #include <string.h>
 
@@ -28,7 +29,26 @@ static int cdecompress(int c, const uint8_t* s, size_t n, uint8_t* d, size_t cap
                  case GZIP: return carquet_gzip_decompress(s, n, d, cap, w); default: return carquet_zstd_decompress(s, n, d, cap, w); }
 }
 
+/* destination capacities at and beyond 4 GiB (the room left in a large reserved arena): a valid stream decodes to the same bytes; the arena is reserved, not committed */
+static void huge_capacity_cases(int c_lo, int c_hi, uint64_t salt) {
+    static uint8_t* arena; static size_t asz = ((size_t)8 << 30) + 4096;
+    if (!arena) { arena = mmap(NULL, asz, PROT_READ | PROT_WRITE, MAP_PRIVATE | MAP_ANONYMOUS | MAP_NORESERVE, -1, 0); if (arena == MAP_FAILED) arena = NULL; }
+    static const size_t CAP[] = { ((size_t)1 << 32) - 1, (size_t)1 << 32, ((size_t)1 << 32) + 50, (size_t)1 << 33, ((size_t)8 << 30) + 4096 };
+    for (int c = c_lo; c <= c_hi; c++) for (int ci = 0; ci < 5; ci++) {
+        if (!mc_next()) continue;
+        mc_desc("huge-capacity:codec=%s;capacity=%zu", CN[c], CAP[ci]); mc_case_key(mc_mix(salt, ((uint64_t)c << 8) | (uint64_t)ci)); mc_nontrivial();
+        if (!arena) { mc_count("huge-capacity.reservation-refused", 1); continue; }
+        uint8_t x[76]; for (int i = 0; i < 76; i++) x[i] = (uint8_t)("parquet-"[i % 8] + (i >= 40 ? 1 : 0)); size_t b = cbound(c, 76), w = 0; uint8_t* dst = mc_arena_tail(&A_dst, b);
+        if (ccompress(c, 0, x, 76, dst, b, &w) != 0) { mc_count("huge-capacity.compress-refused", 1); continue; }
+        uint8_t* out = arena + (asz - CAP[ci]); size_t on = 0; int st = cdecompress(c, dst, w, out, CAP[ci], &on);
+        if (st != 0 || on != 76 || memcmp(out, x, 76)) { char key[96]; snprintf(key, sizeof key, "%s.decompress.capacity-beyond-32-bits", CN[c]); mc_fail(key, "a valid %zu-byte stream of 76 bytes into a destination of %zu bytes: status %d, %zu bytes", w, CAP[ci], st, on); }
+        /* and compression into a destination that large */
+        uint8_t* cd = arena + (asz - CAP[ci]); size_t w2 = 0; int s2 = ccompress(c, 0, x, 76, cd, CAP[ci], &w2);
+        if (s2 != 0 || w2 > b) { char key[96]; snprintf(key, sizeof key, "%s.compress.capacity-beyond-32-bits", CN[c]); mc_fail(key, "76 bytes into a destination of %zu bytes: status %d, %zu bytes (bound %zu)", CAP[ci], s2, w2, b); }
+    }
+}
 /* ---- C09 ------------------------------------------------------------------ */
+static bool g_full_caps;      /* every capacity 0..bound+1 instead of four: set for the structured families and the shortest strings */
 static void roundtrip(const uint8_t* x, size_t n, int c, int lvl, int placement, bool caps) {
     char key[160];
     uint8_t* src = placement ? mc_arena_tail(&A_src, n) : mc_arena_head(&A_src, n);
@@ -71,9 +91,9 @@ static void roundtrip(const uint8_t* x, size_t n, int c, int lvl, int placement,
     if (!caps) return;
     /* destination capacities around the bound: refused, or correct without overflow */
     /* inputs of up to 20 bytes: EVERY capacity 0..bound+1 (the codecs have special paths for inputs stored as one literal); longer inputs: 0, 1, bound-1, bound+1 */
-    size_t capv[4] = { 0, 1, b - 1, b + 1 }; size_t ncap = n <= 20 ? b + 2 : 4;
+    size_t capv[4] = { 0, 1, b - 1, b + 1 }; size_t ncap = (n <= 20 && g_full_caps) ? b + 2 : 4;
     for (size_t k = 0; k < ncap; k++) {
-        size_t cap = n <= 20 ? k : capv[k];
+        size_t cap = (n <= 20 && g_full_caps) ? k : capv[k];
         uint8_t* d2 = mc_arena_tail(&A_dst, cap);
         size_t w2 = (size_t)-1;
         st = ccompress(c, lvl, src, n, d2, cap, &w2);
@@ -149,7 +169,7 @@ static void c09(void) {
             for (int i = 0; i < n; i++) x[i] = (uint8_t)('a' + ((bits >> i) & 1));
             mc_desc("c09:alpha=2;n=%d;bits=0x%x", n, bits); mc_feature("binary-string");
             mc_case_key(mc_mix(0x91, ((uint64_t)n << 32) | bits)); if (n >= 4) mc_nontrivial();
-            run_all(x, (size_t)n, CORE, 8, true, true);
+            g_full_caps = n <= 6 || bits == 0 || bits == (1u << n) - 1 || bits == 0x5555u >> (16 - n > 0 ? 0 : 0); run_all(x, (size_t)n, CORE, 8, true, true); g_full_caps = false;
         }
     mc_stage("c09.all-ternary-strings");
     for (int n = 1; n <= L3; n++) {
@@ -180,7 +200,7 @@ static void c09(void) {
             gen_family(fam, n, g_big);
             mc_desc("c09:family=%d;n=%zu", fam, n); mc_feature("family");
             mc_case_key(mc_mix(0x94, ((uint64_t)fam << 32) | n)); if (n >= 4) mc_nontrivial();
-            run_all(g_big, n, CORE, 8, true, true);
+            g_full_caps = true; run_all(g_big, n, CORE, 8, true, true); g_full_caps = false;
         }
     mc_stage("c09.all-levels.families");
     for (int fam = 0; fam < 4; fam++)
@@ -541,6 +561,7 @@ static void c10(void) {
     build_snappy_alphabets();
     static sb_t sb; ref_buf_init(&sb.s); ref_buf_init(&sb.o);
     /* the preamble: every length at the boundaries of the 1..5-byte varint forms (the format allows 2^32 - 1) */
+    mc_stage("c10.b.capacities-beyond-4GiB"); huge_capacity_cases(SNAPPY, LZ4, 0xac);
     mc_stage("c10.b.snappy.preamble.every-varint-form");
     { static const uint64_t PV[] = { 0, 1, 127, 128, 129, 16383, 16384, 16385, (1u << 21) - 1, 1u << 21, (1u << 21) + 1, (1u << 28) - 1, 1u << 28, (1u << 28) + 1, (1u << 28) + 64, 0x7fffffffu, 0x80000000u, 0xfffffffeu, 0xffffffffu };
       for (int i = 0; i < 19; i++) for (int tail = 0; tail < 2; tail++) {
